@@ -1,11 +1,34 @@
 (* C04 (completeness half, token level): the Pratt parser of Model/Parser.v
-   never answers "unexpected token" inside a sentence of the grammar gE of
-   Proofs/Grammar.v, except at an expression reference "&" that stands where
-   the called function wants a value. *)
+   accepts the sentences of the grammar gE of Proofs/Grammar.v.
+
+   parser_complete           on a sentence of gE, with fuel > length, parse_items never panics,
+                             never runs out of fuel, and answers Ok or one of the faults [allowed]:
+                             unknown function / arity / argument kind at a call site, slice step 0,
+                             a token whose own text is invalid (integer out of range, JSON literal,
+                             quoted identifier), and "unexpected token" ONLY at an expression
+                             reference "&" among the arguments of a call of the wrong shape
+   syntax_error_only_at_amp  the same in terms of Api.parse_category, for lexically valid tokens
+   no_syntax_error           no "&" in the sentence: the category is never CSyntax
+   parser_complete_static    static_ok ts (valid token texts, no zero step, known names, every call
+                             of the right shape) -> parse_items returns Ok
+   parser_complete_call_free the same for sentences without calls
+   parser_incomplete_example abs(&a) is a sentence of gE and a SYNTAX error of the parser: plain
+                             completeness is false in the model (and in the library), the "&" clause
+                             above cannot be dropped
+
+   Method: gE is flat and ambiguous, so it is first brought into the left-factored form
+     LX ::= unary LX | "let" bindings "in" LX | P KX      KX ::= | binary LX | sub KX | bracket KX
+   (gE_LX).  The invariant, proved by induction on the fuel (run_spec), says: parser.expression at
+   power p in front of (e ++ rest), with LX e and rest starting with a closing token, leaves a
+   continuation k (KX k) in front of rest whose first token does not bind tighter than p; the same
+   for the loop of parser.continuation in front of (k ++ rest).  At power 1 nothing can be left
+   (KX_low1), which is what the callers that expect a closing token need.  Errors are tracked by a
+   weakest-precondition predicate wp whose error clause [gerr] is relative to the sentence ts; the
+   parser is always in front of a suffix of ts (okl). *)
 From Coq Require Import List ZArith Bool Lia.
 From JM Require Import Base.Outcome Base.Bytes Json.Value Model.Token Model.Lexer Model.Ast
   Model.Literals Model.Parser.
-From JM Require Proofs.Termination.
+From JM Require Proofs.Termination Model.Api.
 From JM Require Import Proofs.Grammar.
 Import ListNotations.
 Open Scope Z_scope.
@@ -255,20 +278,63 @@ Proof.
   match goal with |- context [match ?x with Some _ => _ | None => _ end] => destruct x end; eauto.
 Qed.
 
+(* ---- argument lists split into arguments ---- *)
+(* the kinds of arguments each function wants: [true] = expression reference "&" *)
+Definition shape_ok (ap : argparser) (fl : list bool) : bool :=
+  match ap, fl with
+  | AP1, [false] => true
+  | AP1to2, [false] | AP1to2, [false; false] => true
+  | AP2, [false; false] => true
+  | AP2Exp, [false; true] => true
+  | AP2Map, [true; false] => true
+  | AP2to3, [false; false] | AP2to3, [false; false; false] => true
+  | AP2to4, [false; false] | AP2to4, [false; false; false] | AP2to4, [false; false; false; false] => true
+  | AP3to4, [false; false; false] | AP3to4, [false; false; false; false] => true
+  | APVar, _ :: _ => forallb negb fl
+  | _, _ => false
+  end.
+
+Inductive gArgF : bool -> list token -> Prop :=
+| gArgF_expr e : gE e -> gArgF false e
+| gArgF_ref a e : ttyp a = TExpression -> gE e -> gArgF true (a :: e).
+Inductive gArgs1F : list bool -> list token -> Prop :=
+| gArgs1F_one b a : gArgF b a -> gArgs1F [b] a
+| gArgs1F_cons b a c bs r :
+    gArgF b a -> ttyp c = TComma -> gArgs1F bs r -> gArgs1F (b :: bs) (a ++ c :: r).
+(* a reading of [args] as a list of arguments with the kinds [fl] *)
+Definition gArgsF (fl : list bool) (args : list token) : Prop :=
+  (fl = [] /\ args = []) \/ gArgs1F fl args.
+
+Lemma gArg_flag a : gArg a -> exists b, gArgF b a.
+Proof. intros [e He|amp e Ha He]; eexists; constructor; eassumption. Qed.
+Lemma gArgs1_flags args : gArgs1 args -> exists fl, gArgs1F fl args.
+Proof.
+  induction 1 as [a Ha|a c r Ha Hc Hr [fl IH]].
+  - destruct (gArg_flag a Ha) as [b Hb]. exists [b]. constructor. exact Hb.
+  - destruct (gArg_flag a Ha) as [b Hb]. exists (b :: fl). constructor; assumption.
+Qed.
+Lemma gArgs_flags args : gArgs args -> exists fl, gArgsF fl args.
+Proof.
+  intros [|a Ha].
+  - exists []. left. auto.
+  - destruct (gArgs1_flags a Ha) as [fl H]. exists fl. right. exact H.
+Qed.
+
 (* ================================================================== *)
 (* 3. The invariant                                                    *)
 (* ================================================================== *)
 Section Main.
-(* the tokens of the sentence being parsed *)
-Variable A : token -> Prop.
-Definition okl (l : list token) : Prop := Forall A l.
+(* the sentence being parsed; the parser is always in front of a suffix of it *)
+Variable ts : list token.
+Definition okl (l : list token) : Prop := exists pre, ts = pre ++ l.
+Definition A (t : token) : Prop := In t ts.
 
 Lemma okl_cons_r t l : okl (t :: l) -> okl l.
-Proof. intros H. inversion H; assumption. Qed.
+Proof. intros [pre H]. exists (pre ++ [t]). rewrite <- app_assoc. exact H. Qed.
 Lemma okl_app_r a b : okl (a ++ b) -> okl b.
-Proof. intros H. apply Forall_app in H. apply H. Qed.
+Proof. intros [pre H]. exists (pre ++ a). rewrite <- app_assoc. exact H. Qed.
 Lemma okl_in l t : okl l -> In t l -> A t.
-Proof. intros H. apply Forall_forall. exact H. Qed.
+Proof. intros [pre H] Hin. unfold A. rewrite H. apply in_or_app. right. exact Hin. Qed.
 
 Ltac okt_ H := first [ exact H | (apply okl_cons_r in H; okt_ H) | (apply okl_app_r in H; okt_ H) ].
 Ltac okt := match goal with H : okl _ |- okl _ => let H' := fresh in pose proof H as H'; okt_ H' end.
@@ -276,10 +342,29 @@ Ltac getA := eapply okl_in; [eassumption|cbn [In]; auto 12].
 
 (* the errors a sentence may get: the four static non-syntax faults, a token
    whose own text is invalid, and an expression reference in value position *)
+(* a call of a known function whose arguments, in some reading, do not have
+   the number or the kinds the function wants *)
+Definition BADCALL : Prop :=
+  exists pre fn o args c X ap fb fl,
+    ts = pre ++ fn :: o :: args ++ c :: X /\
+    ttyp fn = TUnquotedIdentifier /\ ttyp o = TOpenParen /\ ttyp c = TCloseParen /\
+    assoc (tval fn) function_table = Some (ap, fb) /\ gArgsF fl args /\ shape_ok ap fl = false.
+
+(* the position of a slice step: after [number] ":" [number] ":" *)
+Definition step_site (z : token) : Prop :=
+  exists pre a c1 b c2 c X,
+    ts = pre ++ a ++ c1 :: b ++ c2 :: z :: c :: X /\
+    gOptNum a /\ ttyp c1 = TColon /\ gOptNum b /\ ttyp c2 = TColon /\ ttyp c = TCloseSqBrace.
+
 Definition gerr (e : err) : Prop :=
   match e with
-  | EUnknownFunction _ | EInvalidFunctionCall _ | EInvalidFunctionArgument _ | EInvalidSliceStep => True
-  | EUnexpectedToken v => exists t, A t /\ ttyp t = TExpression /\ tval t = v
+  | EUnknownFunction v =>
+      exists pre o X, ts = pre ++ Tok TUnquotedIdentifier v :: o :: X /\ ttyp o = TOpenParen /\
+                      assoc v function_table = None
+  | EInvalidFunctionCall _ | EInvalidFunctionArgument _ => BADCALL
+  | EInvalidSliceStep =>
+      exists z, step_site z /\ ttyp z = TIntegerLiteral /\ atoi (tval z) = Some 0
+  | EUnexpectedToken v => (exists t, A t /\ ttyp t = TExpression /\ tval t = v) /\ BADCALL
   | EInvalidIndex v => exists t, A t /\ ttyp t = TIntegerLiteral /\ tval t = v /\ atoi v = None
   | EInvalidJSONLiteral v =>
       exists t, A t /\ ttyp t = TJSONLiteral /\ tval t = v /\ parse_json_literal v = Err (EInvalidJSONLiteral v)
@@ -324,12 +409,19 @@ Lemma gOptNum_cases a : gOptNum a -> a = [] \/ exists v, a = [Tok TIntegerLitera
 Proof. destruct 1; [left; reflexivity|right]. destruct t as [ty v]. cbn in H. subst. eauto. Qed.
 
 Ltac wperr :=
-  cbn [wp gerr];
-  first [ exact I
-        | match goal with
-          | |- exists t, A t /\ ttyp t = ?K /\ tval t = ?v => exists (Tok K v)
-          | |- exists t, A t /\ ttyp t = ?K /\ tval t = ?v /\ _ => exists (Tok K v)
-          end; split; [getA|]; cbn [ttyp tval]; repeat split; solve [auto] ].
+  cbn [wp];
+  first
+  [ match goal with
+    | G : _ -> gerr EInvalidSliceStep, E1 : (_ =? 0) = true |- gerr EInvalidSliceStep =>
+        apply Z.eqb_eq in E1; subst; apply G; first [assumption|reflexivity]
+    end
+  | cbn [gerr];
+    first [ exact I
+          | assumption
+          | match goal with
+            | |- exists t, A t /\ ttyp t = ?K /\ tval t = ?v => exists (Tok K v)
+            | |- exists t, A t /\ ttyp t = ?K /\ tval t = ?v /\ _ => exists (Tok K v)
+            end; split; [getA|]; cbn [ttyp tval]; repeat split; solve [auto] ] ].
 
 Ltac idx_go :=
   repeat first
@@ -339,7 +431,7 @@ Ltac idx_go :=
     | |- wp _ (Ok _) => cbn [wp fst snd]; reflexivity
     | |- wp _ (bind (match atoi ?v with _ => _ end) _) => let E := fresh "E" in destruct (atoi v) eqn:E
     | |- wp _ (match atoi ?v with _ => _ end) => let E := fresh "E" in destruct (atoi v) eqn:E
-    | |- wp _ (if ?c then _ else _) => destruct c
+    | |- wp _ (if ?c then _ else _) => let E := fresh "E" in destruct c eqn:E
     end ].
 
 Lemma index_index child v c X : ttyp c = TCloseSqBrace -> okl (Tok TIntegerLiteral v :: c :: X) ->
@@ -351,11 +443,24 @@ Lemma index_slice child s c X : gSlice s -> ttyp c = TCloseSqBrace -> okl (s ++ 
   wp (fun r => snd r = sto X) (index child (sto (s ++ c :: X))).
 Proof.
   intros Hs Hc Hok. conc.
-  destruct Hs as [a c1 b Ha Hc1 Hb|a c1 b c2 s3 Ha Hc1 Hb Hc2 Hs3]; conc;
-    apply gOptNum_cases in Ha; apply gOptNum_cases in Hb; try apply gOptNum_cases in Hs3;
-    repeat match goal with H : _ \/ _ |- _ => destruct H as [?|[? ?]] end; subst;
-    nl_in Hok; nl;
-    unfold index, unexpected_curr, unexpected_next; cbv zeta; idx_go.
+  destruct Hs as [a c1 b Ha Hc1 Hb|a c1 b c2 s3 Ha Hc1 Hb Hc2 Hs3]; conc.
+  - apply gOptNum_cases in Ha; apply gOptNum_cases in Hb;
+      repeat match goal with H : _ \/ _ |- _ => destruct H as [?|[? ?]] end; subst;
+      nl_in Hok; nl;
+      unfold index, unexpected_curr, unexpected_next; cbv zeta; idx_go.
+  - apply gOptNum_cases in Hs3. destruct Hs3 as [->|[z ->]].
+    + apply gOptNum_cases in Ha; apply gOptNum_cases in Hb;
+        repeat match goal with H : _ \/ _ |- _ => destruct H as [?|[? ?]] end; subst;
+        nl_in Hok; nl;
+        unfold index, unexpected_curr, unexpected_next; cbv zeta; idx_go.
+    + assert (G : atoi z = Some 0 -> gerr EInvalidSliceStep).
+      { intros Hz. exists (Tok TIntegerLiteral z). split; [|split; [reflexivity|exact Hz]].
+        destruct Hok as [pre Hpre]. nl_in Hpre.
+        eexists pre, a, _, b, _, _, X. split; [exact Hpre|]. repeat split; assumption || reflexivity. }
+      apply gOptNum_cases in Ha; apply gOptNum_cases in Hb;
+        repeat match goal with H : _ \/ _ |- _ => destruct H as [?|[? ?]] end; subst;
+        nl_in Hok; nl;
+        unfold index, unexpected_curr, unexpected_next; cbv zeta; idx_go.
 Qed.
 
 Ltac stp := unfold stop; reflexivity.
@@ -410,7 +515,7 @@ Hypothesis HE : forall p e rest, LX e -> stop rest -> okl (e ++ rest) -> 0 <= p 
   wp (fun r => (exists n, fst r = Some n) /\ RESK p rest (snd r)) (rec (CExpr p) (sto (e ++ rest))).
 Hypothesis HK : forall o p k rest, KX k -> stop rest -> okl (k ++ rest) -> 0 <= p -> (o = None -> 7 <= p) ->
   wp (fun r => (o <> None -> fst r <> None) /\ RESK p rest (snd r)) (rec (CCont o p) (sto (k ++ rest))).
-Hypothesis HA : forall p v l, A (Tok TExpression v) ->
+Hypothesis HA : forall p v l, BADCALL -> A (Tok TExpression v) ->
   wp (fun _ : option node * pst => False) (rec (CExpr p) (sto (Tok TExpression v :: l))).
 
 Lemma expr_spec p e rest : LX e -> stop rest -> okl (e ++ rest) -> 0 <= p ->
@@ -429,12 +534,12 @@ Proof.
   apply KX_low1 in Hl; [|assumption]. subst. cbn [app] in *. auto.
 Qed.
 
-Lemma expr_arg a rest : gArg a -> stop rest -> okl (a ++ rest) ->
+Lemma expr_arg a rest : BADCALL -> gArg a -> stop rest -> okl (a ++ rest) ->
   wp (fun r => snd r = sto rest /\ okl rest) (expr rec 1 (sto (a ++ rest))).
 Proof.
-  intros Ha Hs Hok. destruct Ha as [e He|amp e Hamp He].
+  intros HB Ha Hs Hok. destruct Ha as [e He|amp e Hamp He].
   - apply expr1; assumption.
-  - conc. cbn [app] in *. unfold expr. eapply wp_bind; [apply HA; getA|]. intros a [].
+  - conc. cbn [app] in *. unfold expr. eapply wp_bind; [apply HA; [exact HB|getA]|]. intros a [].
 Qed.
 
 Lemma projection_spec q k rest : KX k -> stop rest -> okl (k ++ rest) -> 7 <= q ->
@@ -533,13 +638,13 @@ Definition SEP (l X : list token) : Prop :=
 Definition SEPst (X : list token) (st : pst) : Prop := exists l', st = sto l' /\ SEP l' X /\ okl l'.
 Definition ARGSst (X : list token) (st : pst) : Prop := exists l', st = sto l' /\ ARGS l' X /\ okl l'.
 
-Lemma arg_step l X : ARGS l X -> okl l -> wp (fun r => SEPst X (snd r)) (expr rec 1 (sto l)).
+Lemma arg_step l X : BADCALL -> ARGS l X -> okl l -> wp (fun r => SEPst X (snd r)) (expr rec 1 (sto l)).
 Proof.
-  intros (args & c & -> & Hg & Hc) Hok. destruct Hg as [a Ha|a cm r Ha Hcm Hr]; conc; nl; nl_in Hok.
-  - eapply wp_mono; [apply expr_arg; [assumption|stp|assumption]|].
+  intros HB (args & c & -> & Hg & Hc) Hok. destruct Hg as [a Ha|a cm r Ha Hcm Hr]; conc; nl; nl_in Hok.
+  - eapply wp_mono; [apply expr_arg; [assumption|assumption|stp|assumption]|].
     intros [n st] [E Hok']. cbn [snd] in *. subst st. eexists. split; [reflexivity|]. split; [|assumption].
     left. eexists. split; reflexivity.
-  - eapply wp_mono; [apply expr_arg; [assumption|stp|assumption]|].
+  - eapply wp_mono; [apply expr_arg; [assumption|assumption|stp|assumption]|].
     intros [n st] [E Hok']. cbn [snd] in *. subst st. eexists. split; [reflexivity|]. split; [|assumption].
     right. eexists _, _. split; [reflexivity|]. split; [reflexivity|].
     eexists _, _. split; [reflexivity|]. split; [assumption|reflexivity].
@@ -567,17 +672,18 @@ Proof.
     eexists _, _. split; [reflexivity|]. split; [assumption|reflexivity].
 Qed.
 
-Lemma end_args_spec name X st : SEPst X st -> wp (fun st' => st' = sto X /\ okl X) (end_args name st).
+Lemma end_args_spec name X st : BADCALL -> SEPst X st ->
+  wp (fun st' => st' = sto X /\ okl X) (end_args name st).
 Proof.
-  intros (l & -> & [(c & -> & Hc)|(cm & l' & -> & Hcm & HA')] & Hok); conc; unfold end_args, unexpected_curr; sx.
+  intros Hn (l & -> & [(c & -> & Hc)|(cm & l' & -> & Hcm & HA')] & Hok); conc; unfold end_args, unexpected_curr; sx.
   - cbn [wp]. split; [reflexivity|okt].
-  - exact I.
+  - exact Hn.
 Qed.
 
-Lemma need_comma_spec name X st : SEPst X st -> wp (ARGSst X) (need_comma name st).
+Lemma need_comma_spec name X st : BADCALL -> SEPst X st -> wp (ARGSst X) (need_comma name st).
 Proof.
-  intros (l & -> & [(c & -> & Hc)|(cm & l' & -> & Hcm & HA')] & Hok); conc; unfold need_comma, unexpected_curr; sx.
-  - exact I.
+  intros Hn (l & -> & [(c & -> & Hc)|(cm & l' & -> & Hcm & HA')] & Hok); conc; unfold need_comma, unexpected_curr; sx.
+  - exact Hn.
   - cbn [wp]. eexists. split; [reflexivity|]. split; [assumption|okt].
 Qed.
 
@@ -589,15 +695,15 @@ Proof.
   - cbn [wp fst snd]. right. split; [reflexivity|]. eexists. split; [reflexivity|]. split; [assumption|okt].
 Qed.
 
-Lemma var_args_loop_spec : forall k acc st X, ARGSst X st ->
+Lemma var_args_loop_spec : forall k acc st X, BADCALL -> ARGSst X st ->
   wp (fun r => snd r = sto X /\ okl X) (var_args_loop rec k acc st).
 Proof.
-  induction k as [|k IH]; intros acc st X (l & -> & HA' & Hok); [exact I|].
+  induction k as [|k IH]; intros acc st X HB (l & -> & HA' & Hok); [exact I|].
   cbn [var_args_loop]. unfold unexpected_curr. cbv zeta.
   eapply wp_bind; [eapply arg_step; eassumption|].
   intros [n st] (l' & E & [(c & -> & Hc)|(cm & l'' & -> & Hcm & HA'')] & Hok'); cbn [snd] in E; subst st; conc; sx.
   - fin.
-  - apply IH. eexists. split; [reflexivity|]. split; [assumption|okt].
+  - apply IH; [exact HB|]. eexists. split; [reflexivity|]. split; [assumption|okt].
 Qed.
 
 Ltac a_arg :=
@@ -608,11 +714,11 @@ Ltac a_arg :=
   | let n := fresh "n" in let st := fresh "st" in let HS := fresh "HS" in
     intros [n st] HS; cbn [snd] in HS ].
 Ltac a_end :=
-  eapply wp_bind; [apply end_args_spec; eassumption|];
+  eapply wp_bind; [apply end_args_spec; [assumption|eassumption]|];
   let st := fresh "st" in let E := fresh "E" in let Hok := fresh "Hok" in
   intros st [E Hok]; subst st; cbn [wp fst snd List.length arity_ok]; auto 6.
 Ltac a_comma :=
-  eapply wp_bind; [apply need_comma_spec; eassumption|];
+  eapply wp_bind; [apply need_comma_spec; [assumption|eassumption]|];
   let st := fresh "st" in let HA' := fresh "HA'" in intros st HA'.
 Ltac a_more :=
   eapply wp_bind; [apply opt_more_spec; eassumption|];
@@ -621,24 +727,24 @@ Ltac a_more :=
   intros [more st] [(E1 & E2 & Hok)|(E1 & HA')]; cbn [fst snd] in *; subst; cbn [negb];
   [cbn [wp fst snd List.length arity_ok]; auto 6|].
 
-Lemma parse_args_spec ap name st X : ARGSst X st ->
+Lemma parse_args_spec ap name st X : BADCALL -> ARGSst X st ->
   wp (fun r => snd r = sto X /\ okl X /\ arity_ok ap (List.length (fst r))) (parse_args rec f ap name st).
 Proof.
-  intros HA0. unfold parse_args.
+  intros Hn HA0. unfold parse_args.
   eapply wp_bind with (P := fun _ => True);
-    [unfold check_not_close; destruct (is (ct st) TCloseParen); exact I|]. intros _ _.
+    [unfold check_not_close; destruct (is (ct st) TCloseParen); [exact Hn|exact I]|]. intros _ _.
   destruct ap.
   - a_arg. a_end.
   - a_arg. a_more. a_arg. a_end.
   - a_arg. a_comma. a_arg. a_end.
   - a_arg. destruct HS as (l & -> & [(c & -> & Hc)|(cm & l' & -> & Hcm & HA')] & Hok); conc; unfold unexpected_curr; sx.
-    + exact I.
-    + destruct (is (hdt l') TExpression) eqn:Ei; cbn [negb]; [|exact I]. apply is_eq in Ei.
+    + exact Hn.
+    + destruct (is (hdt l') TExpression) eqn:Ei; cbn [negb]; [|exact Hn]. apply is_eq in Ei.
       rewrite advance2_sto. cbn [tl bind].
       eapply wp_bind; [eapply arg_step_amp; [eassumption|assumption|okt]|].
       intros [n2 st2] HS. cbn [snd] in HS. a_end.
   - destruct HA0 as (l & -> & HA' & Hok).
-    destruct (is (ct (sto l)) TExpression) eqn:Ei; cbn [negb]; [|exact I]. rewrite ct_sto in Ei. apply is_eq in Ei.
+    destruct (is (ct (sto l)) TExpression) eqn:Ei; cbn [negb]; [|exact Hn]. rewrite ct_sto in Ei. apply is_eq in Ei.
     rewrite advance_sto. cbn [bind].
     eapply wp_bind; [eapply arg_step_amp; eassumption|].
     intros [n1 st1] HS. cbn [snd] in HS. a_comma. a_arg. a_end.
@@ -648,22 +754,88 @@ Proof.
   - eapply wp_mono; [apply var_args_loop_spec; eassumption|]. intros r [H1 H2]. cbn [arity_ok]. auto.
 Qed.
 
+(* ---- the same for an argument list of the right shape: no fault at all ---- *)
+Lemma gE_hd_not e Y : gE e -> hdt (e ++ Y) <> TCloseParen /\ hdt (e ++ Y) <> TExpression.
+Proof.
+  intros He. destruct (gE_first e He) as (t & r & -> & Ht). cbn [app]. rewrite hdt_cons.
+  apply starter_not in Ht. tauto.
+Qed.
+
+Lemma var_args_loop_strong : forall k acc fl args c X,
+  gArgs1F fl args -> forallb negb fl = true -> ttyp c = TCloseParen -> okl (args ++ c :: X) ->
+  wp (fun r => snd r = sto X /\ okl X) (var_args_loop rec k acc (sto (args ++ c :: X))).
+Proof.
+  induction k as [|k IH]; intros acc fl args c X Hf Hn Hc Hok; [exact I|].
+  cbn [var_args_loop]. unfold unexpected_curr. cbv zeta.
+  destruct Hf as [b a Ha|b a cm bs r Ha Hcm Hr]; cbn [forallb] in Hn; apply andb_prop in Hn; destruct Hn as [Hb Hn];
+    destruct Ha as [e He|amp e Hamp He]; try discriminate Hb; conc; nl; nl_in Hok.
+  - do_expr1. sx. fin.
+  - do_expr1. sx. eapply IH; [eassumption|assumption|reflexivity|okt].
+Qed.
+
+Ltac invF :=
+  repeat match goal with
+  | H : gArgs1F (_ :: _) _ |- _ => inversion H; subst; clear H
+  | H : gArgs1F [] _ |- _ => inversion H
+  | H : gArgF _ _ |- _ => inversion H; subst; clear H
+  end.
+
+Ltac pa_go :=
+  repeat first
+  [ progress sx
+  | rewrite Termination.bind_assoc
+  | match goal with
+    | He : gE ?e |- context [is (ct (sto (?e ++ ?Y))) TCloseParen] =>
+        rewrite (ct_sto (e ++ Y)), (is_neq _ _ (proj1 (gE_hd_not e Y He)))
+    | |- wp _ (bind (expr rec 1 (sto (_ ++ _))) _) => do_expr1
+    | |- wp _ (Ok _) => cbn [wp fst snd List.length arity_ok]; repeat split; auto 6; okt
+    end ].
+
+Lemma parse_args_strong ap name fl args c X :
+  gArgsF fl args -> shape_ok ap fl = true -> ttyp c = TCloseParen -> okl (args ++ c :: X) ->
+  wp (fun r => snd r = sto X /\ okl X /\ arity_ok ap (List.length (fst r)))
+     (parse_args rec f ap name (sto (args ++ c :: X))).
+Proof.
+  intros [[-> ->]|Hf] Hsh Hc Hok; [destruct ap; discriminate Hsh|].
+  destruct ap.
+  9:{ unfold parse_args. destruct fl as [|b fl]; [discriminate Hsh|]. cbn [shape_ok] in Hsh.
+      eapply wp_bind with (P := fun _ => True).
+      { unfold check_not_close.
+        destruct Hf as [b0 a Ha|b0 a cm bs r Ha Hcm Hr]; cbn [forallb] in Hsh; apply andb_prop in Hsh;
+          destruct Hsh as [Hb _]; destruct Ha as [e He|amp e Hamp He]; try discriminate Hb; nl;
+          rewrite ct_sto, (is_neq _ _ (proj1 (gE_hd_not e _ He))); exact I. }
+      intros _ _. eapply wp_mono; [eapply var_args_loop_strong; eassumption|].
+      intros r [H1 H2]. cbn [arity_ok]. auto. }
+  all: destruct fl as [|[|] [|[|] [|[|] [|[|] [|? ?]]]]]; try discriminate Hsh; invF; conc; nl; nl_in Hok;
+    unfold parse_args, check_not_close, end_args, need_comma, opt_more, unexpected_curr; pa_go.
+Qed.
+
 Lemma function_spec fn o args c X :
   ttyp fn = TUnquotedIdentifier -> ttyp o = TOpenParen -> gArgs args -> ttyp c = TCloseParen ->
   okl (fn :: o :: args ++ c :: X) ->
   wp (fun r => snd r = sto X /\ okl X) (function rec f (sto (fn :: o :: args ++ c :: X))).
 Proof.
-  intros Hfn Ho Hargs Hc Hok. conc. unfold function. cbv zeta. sx.
-  match goal with |- context [assoc ?nm function_table] =>
-    destruct (assoc nm function_table) as [[ap fb]|] eqn:Et; [|exact I] end.
-  destruct Hargs as [|a Ha].
-  - cbn [app]. unfold parse_args, check_not_close. sx. exact I.
-  - eapply wp_bind; [eapply (parse_args_spec ap _ _ X)|].
-    { eexists. split; [reflexivity|]. split; [|okt]. eexists _, _. split; [reflexivity|]. split; [assumption|reflexivity]. }
-    intros [ns st] (E & Hok' & Har). cbn [fst snd] in *. subst st.
-    destruct (build fb ns) eqn:Eb.
-    + cbn [wp snd]. auto.
-    + exfalso. eapply build_some; [eapply table_compat; eassumption|eassumption|assumption].
+  intros Hfn Ho Hargs Hc Hok. destruct fn as [ty nm]. cbn [ttyp] in Hfn. subst ty.
+  unfold function. cbv zeta. sx.
+  destruct (assoc nm function_table) as [[ap fb]|] eqn:Et.
+  2:{ cbn [wp gerr]. destruct Hok as [pre Hpre]. eexists pre, _, _. split; [exact Hpre|]. split; [exact Ho|exact Et]. }
+  destruct (gArgs_flags args Hargs) as (fl & Hfl).
+  assert (W : wp (fun r => snd r = sto X /\ okl X /\ arity_ok ap (List.length (fst r)))
+                 (parse_args rec f ap nm (sto (args ++ c :: X)))).
+  { destruct (shape_ok ap fl) eqn:Esh.
+    - apply (parse_args_strong ap nm fl); [assumption|assumption|assumption|okt].
+    - assert (HB : BADCALL).
+      { destruct Hok as [pre Hpre]. exists pre, (Tok TUnquotedIdentifier nm), o, args, c, X, ap, fb, fl.
+        repeat split; assumption || reflexivity. }
+      destruct Hargs as [|a Ha].
+      + conc. cbn [app]. unfold parse_args, check_not_close. sx. exact HB.
+      + apply parse_args_spec; [exact HB|]. eexists. split; [reflexivity|]. split; [|okt].
+        eexists _, _. split; [reflexivity|]. split; [assumption|exact Hc]. }
+  eapply wp_bind; [exact W|].
+  intros [ns st] (E & Hok' & Har). cbn [fst snd] in *. subst st.
+  destruct (build fb ns) eqn:Eb.
+  + cbn [wp snd]. auto.
+  + exfalso. eapply build_some; [eapply table_compat; eassumption|eassumption|assumption].
 Qed.
 
 (* ---- brackets ---- *)
@@ -874,11 +1046,11 @@ Proof.
     rewrite Z.gtb_ltb in Ep. apply Z.ltb_ge in Ep. exact Ep.
 Qed.
 
-Lemma run_body_amp p v l : A (Tok TExpression v) ->
+Lemma run_body_amp p v l : BADCALL -> A (Tok TExpression v) ->
   wp (fun _ : option node * pst => False) (run_body rec f (CExpr p) (sto (Tok TExpression v :: l))).
 Proof.
-  intros Ha. cbn [run_body]. unfold primary, unexpected_curr. sx. cbn [wp gerr].
-  exists (Tok TExpression v). auto.
+  intros HB Ha. cbn [run_body]. unfold primary, unexpected_curr. sx. cbn [wp gerr].
+  split; [|exact HB]. exists (Tok TExpression v). auto.
 Qed.
 End Level.
 
@@ -888,27 +1060,242 @@ Definition SPEC (rec : pcall -> pst -> outcome (option node * pst)) : Prop :=
      wp (POSTE p rest) (rec (CExpr p) (sto (e ++ rest)))) /\
   (forall o p k rest, KX k -> stop rest -> okl (k ++ rest) -> 0 <= p -> (o = None -> 7 <= p) ->
      wp (POSTK o p rest) (rec (CCont o p) (sto (k ++ rest)))) /\
-  (forall p v l, A (Tok TExpression v) ->
+  (forall p v l, BADCALL -> A (Tok TExpression v) ->
      wp (fun _ : option node * pst => False) (rec (CExpr p) (sto (Tok TExpression v :: l)))).
 
 Lemma run_spec : forall fuel, SPEC (run fuel).
 Proof.
   induction fuel as [|fuel (IH1 & IH2 & IH3)].
-  - repeat split; intros; exact I.
-  - repeat split; intros; cbn [run].
+  - split; [|split]; intros; exact I.
+  - split; [|split]; intros; cbn [run].
     + apply run_body_expr; assumption.
     + apply run_body_cont; assumption.
     + apply run_body_amp; assumption.
 Qed.
 
-Lemma parse_items_wp fuel ts : gE ts -> okl ts ->
+Lemma parse_items_wp fuel : gE ts ->
   wp (fun _ => True) (parse_items fuel (map ITok ts ++ [ITok tEnd])).
 Proof.
-  intros Hg Hok. rewrite parse_items_sto.
+  intros Hg. rewrite parse_items_sto.
   destruct (run_spec fuel) as (H1 & _ & _).
   eapply wp_bind.
-  - rewrite <- (app_nil_r ts). apply H1; [apply gE_LX; assumption|reflexivity|rewrite app_nil_r; assumption|lia].
+  - replace (sto ts) with (sto (ts ++ [])) by (rewrite app_nil_r; reflexivity).
+    apply H1; [apply gE_LX; assumption|reflexivity|exists []; rewrite app_nil_r; reflexivity|lia].
   - intros [o st] [[n Hn] (k & E & Hk & Hok' & Hl)]. cbn [fst snd] in *. subst o st.
     apply KX_low1 in Hl; [|assumption]. subst k. cbn [app]. exact I.
 Qed.
 End Main.
+
+(* ================================================================== *)
+(* 4. Completeness                                                     *)
+(* ================================================================== *)
+
+(* The answers the parser may give on a sentence [ts] of the grammar, besides Ok:
+   - unknown function / wrong number of arguments / argument of the wrong kind,
+     each at a call site of [ts]; a slice whose step is the number 0;
+   - a token of [ts] whose own text is invalid: an integer outside the int range,
+     a JSON literal or a quoted identifier with invalid content;
+   - "unexpected token" ONLY at an expression reference "&" of [ts]. *)
+Definition allowed (ts : list token) (e : err) : Prop := gerr ts e.
+
+Theorem parser_complete : forall ts, gE ts ->
+  forall fuel, (List.length ts < fuel)%nat ->
+  match parse_items fuel (map ITok ts ++ [ITok (Tok TEnd [])]) with
+  | Ok _ => True
+  | Err e => allowed ts e
+  | _ => False
+  end.
+Proof.
+  intros ts Hg fuel Hf.
+  pose proof (parse_items_wp ts fuel Hg) as H.
+  assert (Hn : parse_items fuel (map ITok ts ++ [ITok (Tok TEnd [])]) <> OutOfFuel).
+  { eapply Termination.post_no_fuel, Termination.parse_items_post.
+    - apply Termination.wfl_shape. left. reflexivity.
+    - rewrite app_length, map_length. cbn [List.length]. lia. }
+  unfold tEnd in H.
+  destruct (parse_items fuel (map ITok ts ++ [ITok (Tok TEnd [])])); cbn [wp] in H; try exact H.
+  congruence.
+Qed.
+
+(* the form asked for in DESIGN (C04): every large enough fuel *)
+Corollary parser_complete_ev : forall ts, gE ts ->
+  exists fuel0, forall fuel, (fuel0 <= fuel)%nat ->
+  match parse_items fuel (map ITok ts ++ [ITok (Tok TEnd [])]) with
+  | Ok _ => True
+  | Err e => allowed ts e
+  | _ => False
+  end.
+Proof.
+  intros ts Hg. exists (S (List.length ts)). intros fuel Hf. apply parser_complete; [assumption|lia].
+Qed.
+
+(* ---- in terms of the error categories of the public API ---- *)
+(* the text of a token is valid for its type (a lexical matter, below the grammar) *)
+Definition lex_valid (t : token) : Prop :=
+  match ttyp t with
+  | TIntegerLiteral => atoi (tval t) <> None
+  | TJSONLiteral => parse_json_literal (tval t) <> Err (EInvalidJSONLiteral (tval t))
+  | TQuotedIdentifier => parse_quoted_identifier (tval t) <> Err (EInvalidQuoted (tval t))
+  | _ => True
+  end.
+
+Lemma lex_valid_in ts t : Forall lex_valid ts -> In t ts -> lex_valid t.
+Proof. intros H. apply Forall_forall. exact H. Qed.
+
+Ltac lexbad H Hv :=
+  let t := fresh "t" in let Hin := fresh "Hin" in let Ht := fresh "Ht" in let E := fresh "E" in
+  let Hat := fresh "Hat" in let L := fresh "L" in
+  destruct H as (t & Hin & Ht & E & Hat); exfalso;
+  pose proof (lex_valid_in _ t Hv Hin) as L; unfold lex_valid in L; rewrite Ht, E in L; contradiction.
+
+(* on a sentence with lexically valid tokens the ONLY syntax error is an
+   expression reference "&" among the arguments of a call of the wrong shape *)
+Theorem syntax_error_only_at_amp : forall ts, gE ts -> Forall lex_valid ts ->
+  forall fuel, (List.length ts < fuel)%nat ->
+  match parse_items fuel (map ITok ts ++ [ITok (Tok TEnd [])]) with
+  | Ok _ => True
+  | Err e =>
+      Api.parse_category e = Api.CSyntax ->
+      (exists t, In t ts /\ ttyp t = TExpression /\ e = EUnexpectedToken (tval t)) /\ BADCALL ts
+  | _ => False
+  end.
+Proof.
+  intros ts Hg Hv fuel Hf. pose proof (parser_complete ts Hg fuel Hf) as H.
+  destruct (parse_items fuel (map ITok ts ++ [ITok (Tok TEnd [])])) as [n|e| | |]; try exact H.
+  unfold allowed in H. intros Hc.
+  destruct e; cbn [gerr] in H; try contradiction; try discriminate Hc.
+  - destruct H as [(t & Hin & Ht & E) HB]. split; [|exact HB]. exists t. subst. auto.
+  - lexbad H Hv.
+  - lexbad H Hv.
+  - lexbad H Hv.
+Qed.
+
+Corollary no_syntax_error : forall ts, gE ts -> Forall lex_valid ts ->
+  (forall t, In t ts -> ttyp t <> TExpression) ->
+  forall fuel, (List.length ts < fuel)%nat ->
+  match parse_items fuel (map ITok ts ++ [ITok (Tok TEnd [])]) with
+  | Ok _ => True
+  | Err e => Api.parse_category e <> Api.CSyntax
+  | _ => False
+  end.
+Proof.
+  intros ts Hg Hv Hamp fuel Hf. pose proof (syntax_error_only_at_amp ts Hg Hv fuel Hf) as H.
+  destruct (parse_items fuel (map ITok ts ++ [ITok (Tok TEnd [])])) as [n|e| | |]; try exact H.
+  intros Hc. destruct (H Hc) as [(t & Hin & Ht & _) _]. exact (Hamp t Hin Ht).
+Qed.
+
+(* ---- the stronger form: statically valid sentences are accepted ---- *)
+(* no slice has the step 0 *)
+Definition no_zero_step (ts : list token) : Prop :=
+  forall z, step_site ts z -> ttyp z = TIntegerLiteral -> atoi (tval z) <> Some 0.
+(* every called name is in the function table *)
+Definition known_calls (ts : list token) : Prop :=
+  forall pre v o X, ts = pre ++ Tok TUnquotedIdentifier v :: o :: X -> ttyp o = TOpenParen ->
+    assoc v function_table <> None.
+(* every call has the number and the kinds of arguments its function wants,
+   however its argument list is read *)
+Definition calls_ok (ts : list token) : Prop :=
+  forall pre fn o args c X ap fb fl,
+    ts = pre ++ fn :: o :: args ++ c :: X ->
+    ttyp fn = TUnquotedIdentifier -> ttyp o = TOpenParen -> ttyp c = TCloseParen ->
+    assoc (tval fn) function_table = Some (ap, fb) -> gArgsF fl args -> shape_ok ap fl = true.
+Definition static_ok (ts : list token) : Prop :=
+  Forall lex_valid ts /\ no_zero_step ts /\ known_calls ts /\ calls_ok ts.
+
+Lemma calls_ok_good ts : calls_ok ts -> ~ BADCALL ts.
+Proof.
+  intros H (pre & fn & o & args & c & X & ap & fb & fl & E & H1 & H2 & H3 & H4 & H5 & H6).
+  rewrite (H pre fn o args c X ap fb fl E H1 H2 H3 H4 H5) in H6. discriminate.
+Qed.
+
+Theorem parser_complete_static : forall ts, gE ts -> static_ok ts ->
+  forall fuel, (List.length ts < fuel)%nat ->
+  exists n, parse_items fuel (map ITok ts ++ [ITok (Tok TEnd [])]) = Ok n.
+Proof.
+  intros ts Hg (Hv & Hz & Hk & Hc) fuel Hf. apply calls_ok_good in Hc.
+  pose proof (parser_complete ts Hg fuel Hf) as H.
+  destruct (parse_items fuel (map ITok ts ++ [ITok (Tok TEnd [])])) as [n|e| | |]; try contradiction.
+  { eauto. }
+  exfalso. unfold allowed in H.
+  destruct e; cbn [gerr] in H; try contradiction.
+  - exact (Hc (proj2 H)).
+  - lexbad H Hv.
+  - lexbad H Hv.
+  - lexbad H Hv.
+  - destruct H as (z & Hs & Ht & Hat). exact (Hz z Hs Ht Hat).
+  - destruct H as (pre & o & X & E & Ho & Hn). exact (Hk pre f o X E Ho Hn).
+Qed.
+
+(* sentences without function calls *)
+Definition call_site (ts : list token) : Prop :=
+  exists pre v o X, ts = pre ++ Tok TUnquotedIdentifier v :: o :: X /\ ttyp o = TOpenParen.
+
+Corollary parser_complete_call_free : forall ts, gE ts -> Forall lex_valid ts ->
+  ~ call_site ts -> no_zero_step ts ->
+  forall fuel, (List.length ts < fuel)%nat ->
+  exists n, parse_items fuel (map ITok ts ++ [ITok (Tok TEnd [])]) = Ok n.
+Proof.
+  intros ts Hg Hv Hcs Hz fuel Hf. apply parser_complete_static; try assumption.
+  split; [assumption|]. split; [assumption|]. split.
+  - intros pre v o X E Ho. exfalso. apply Hcs. exists pre, v, o, X. auto.
+  - intros pre fn o args c X ap fb fl E H1 H2 _ _ _. exfalso. apply Hcs.
+    destruct fn as [ty v]. cbn [ttyp] in H1. subst ty. exists pre, v, o, (args ++ c :: X). auto.
+Qed.
+
+(* ================================================================== *)
+(* 5. The exception is real: "&" in value position is a SYNTAX error   *)
+(* ================================================================== *)
+(* abs(&a) *)
+Definition amp_example : list token :=
+  [Tok TUnquotedIdentifier [97;98;115]; Tok TOpenParen [40]; Tok TExpression [38];
+   Tok TUnquotedIdentifier [97]; Tok TCloseParen [41]].
+
+Theorem parser_incomplete_example :
+  gE amp_example /\
+  parse_items 6 (map ITok amp_example ++ [ITok (Tok TEnd [])]) = Err (EUnexpectedToken [38]) /\
+  Api.parse_category (EUnexpectedToken [38]) = Api.CSyntax /\
+  lex_all [97;98;115;40;38;97;41] = map ITok amp_example ++ [ITok (Tok TEnd [])] /\
+  parse [97;98;115;40;38;97;41] = Err (EUnexpectedToken [38]).
+Proof.
+  split; [apply spec_accepts_sound; vm_compute; reflexivity|].
+  repeat split; vm_compute; reflexivity.
+Qed.
+
+(* the static conditions are satisfiable in the presence of calls: abs(a) *)
+Definition call_example : list token :=
+  [Tok TUnquotedIdentifier [97;98;115]; Tok TOpenParen [40]; Tok TUnquotedIdentifier [97]; Tok TCloseParen [41]].
+
+Ltac peel :=
+  match goal with
+  | E : _ = ?pre ++ _ |- _ =>
+      is_var pre; destruct pre as [|? pre]; cbn [app] in E; inversion E; subst; clear E
+  | E : [] = _ :: _ |- _ => discriminate E
+  | E : _ :: _ = [] |- _ => discriminate E
+  end.
+
+Example static_ok_call_example : gE call_example /\ static_ok call_example.
+Proof.
+  split; [apply spec_accepts_sound; vm_compute; reflexivity|].
+  unfold static_ok, call_example. split; [|split; [|split]].
+  - repeat constructor.
+  - intros z (pre & a & c1 & b & c2 & c & X & E & _ & Hc1 & _). exfalso.
+    assert (Hin : In c1 [Tok TUnquotedIdentifier [97;98;115]; Tok TOpenParen [40]; Tok TUnquotedIdentifier [97]; Tok TCloseParen [41]]).
+    { rewrite E. apply in_or_app. right. apply in_or_app. right. left. reflexivity. }
+    cbn [In] in Hin. repeat (destruct Hin as [<-|Hin]; [discriminate Hc1|]). exact Hin.
+  - intros pre v o X E Ho. repeat peel; cbn [ttyp] in *; try discriminate.
+  - intros pre fn o args c X ap fb fl E Hfn Ho Hc Ha Hfl.
+    repeat peel; cbn [ttyp tval] in *; try discriminate.
+    vm_compute in Ha. inversion Ha; subst; clear Ha.
+    destruct Hfl as [[_ D]|Hfl]; [discriminate D|].
+    inversion Hfl as [b a Hb|b a cm bs r Hb Hcm Hr]; subst.
+    + inversion Hb; subst; [reflexivity|]. cbn [ttyp] in *. discriminate.
+    + exfalso. match goal with H : _ ++ _ :: _ = _ |- _ => symmetry in H end.
+      repeat peel; cbn [ttyp] in *; discriminate.
+Qed.
+
+Print Assumptions parser_complete.
+Print Assumptions syntax_error_only_at_amp.
+Print Assumptions parser_complete_static.
+Print Assumptions parser_complete_call_free.
+Print Assumptions parser_incomplete_example.
+Print Assumptions static_ok_call_example.
